@@ -144,8 +144,18 @@ def check_one(chk, rep, repo, cls, eff):
     for sc in scans:
         check_knn_scan(rep, "", sc, ("attr", ("self",), "subgraph"), allow_self_skip=False, orientation=False)
         covered |= {sc.D, sc.N}
+    # a result buffer with one cell per query (`out[i] = v` at the batch position, never read inside the per-sample loop)
+    # carries nothing from one sample to another
+    own_cell = set()
     for arr, ev in scratch.items():
-        rep.ev("NI-scratch", ev, arr in covered,
+        stores = [e for e in wk.events if e.kind == "store" and root_object(e.target) == arr and per.lid in e.loops]
+        reads = [e for e in wk.events if per.lid in e.loops and e.kind != "bind" and any(
+            root_object(t) == arr and t[0] == "idx" for top in [x for x in (e.value,) if x is not None] + list(e.args or ())
+            + [g for g, _ in e.guards] for t in subterms(top))]
+        if i is not None and stores and all(e.target == ("idx", arr, i) and not e.aug for e in stores) and not reads:
+            own_cell.add(arr)
+    for arr, ev in scratch.items():
+        rep.ev("NI-scratch", ev, arr in covered or arr in own_cell,
                f"array '{show(arr)}' outlives one sample and is neither reset per sample nor read under a validity test")
     # (3) kinds: the batch position only selects the query node
     for ev in w.events:
@@ -155,7 +165,7 @@ def check_one(chk, rep, repo, cls, eff):
         for top in tops:
             for s in subterms(top):
                 if i in s[1:] if isinstance(s, tuple) else False:
-                    if s != x and s[0] not in ("iter", "iterproj"):
+                    if s != x and s[0] not in ("iter", "iterproj") and not (s[0] == "idx" and s[1] in own_cell and s[2] == i):
                         rep.ev("NI-position", ev, False,
                                f"the batch position is used for something other than selecting the query node: '{show(s)[:100]}'")
     for ev in w.events:
